@@ -176,6 +176,10 @@ func (s *serveOpts) keygen(c echo.Context) error {
 
 func (s *serveOpts) bulk(c echo.Context) error {
 	ctx := c.Request().Context()
+	// Responses are written while the request stream is still being read,
+	// without full duplex the HTTP/1 server discards the unread requests
+	// as soon as the first response is sent.
+	_ = http.NewResponseController(c.Response().Writer).EnableFullDuplex()
 	c.Response().Header().Set(echo.HeaderContentType, echo.MIMEApplicationJSON)
 	c.Response().WriteHeader(http.StatusOK)
 
